@@ -99,7 +99,9 @@ const PIPE_REPLY: usize = 9 + 2 * NET_REGS as usize;
 /// progress (it has answered everything, or it is blocked on a full send buffer: the handler's
 /// call counter stands still and nothing more can be written), then everything is read while the
 /// rest is written.  Readiness-driven non-blocking I/O: the harness itself can never dead-lock.
-async fn pipeline(s: &mut TcpStream, cnt: usize, calls: &AtomicUsize) -> String {
+/// `read_replies = false` (step `Z`): the peer stalls - it writes the requests, never reads, and
+/// keeps the connection open, so that the session is left blocked in the write of a reply
+async fn pipeline(s: &mut TcpStream, cnt: usize, calls: &AtomicUsize, read_replies: bool) -> String {
     let mut reqs = Vec::with_capacity(cnt * PIPE_REQ);
     for i in 0..cnt {
         let t = i as u16;
@@ -138,6 +140,9 @@ async fn pipeline(s: &mut TcpStream, cnt: usize, calls: &AtomicUsize) -> String 
         if last_progress.elapsed() >= Duration::from_millis(120) {
             break;
         }
+    }
+    if !read_replies {
+        return String::new();
     }
     // phase 2: read (and write what is left)
     let total = cnt * PIPE_REPLY;
@@ -324,9 +329,16 @@ pub async fn run_net(tok: &[&str]) -> String {
                     let (k, cnt) = rest.split_once('.').unwrap();
                     let r = match conns.get_mut(k) {
                         None => "noconn".to_string(),
-                        Some(s) => pipeline(s, cnt.parse().unwrap(), &calls).await,
+                        Some(s) => pipeline(s, cnt.parse().unwrap(), &calls, true).await,
                     };
                     out.push(format!("P{k}:{r}"));
+                }
+                "Z" => {
+                    // a stalled peer: n requests written, nothing read, connection kept open
+                    let (k, cnt) = rest.split_once('.').unwrap();
+                    if let Some(s) = conns.get_mut(k) {
+                        let _ = pipeline(s, cnt.parse().unwrap(), &calls, false).await;
+                    }
                 }
                 "B" => {
                     // taken out of the table first, then dropped (closed) in one go
@@ -423,7 +435,13 @@ pub async fn run_net(tok: &[&str]) -> String {
     if !join.is_finished() {
         join.abort();
     }
-    let calls = calls.load(Ordering::Relaxed);
+    // with a stalled peer the number of requests answered before the send buffer filled up is
+    // not determined
+    let calls = if tok[4].split(',').any(|x| x.starts_with('Z')) {
+        "*".to_string()
+    } else {
+        calls.load(Ordering::Relaxed).to_string()
+    };
     format!(
         "{} | {} calls={}",
         if out.is_empty() { "-".into() } else { out.join(";") },
